@@ -27,10 +27,12 @@ class C11(Check):
             return [
                 SubSpace("sql/order/X/d4", sw, ("X",), spaces.SQL_ORDER, 4),
                 SubSpace("sql/order/Y/d2", sw, ("Y", "Xunb"), spaces.SQL_ORDER, 2),
+                SubSpace("sql/mini/X/d5", sw, ("X",), spaces.SQL_MINI, 5),
             ]
         return [
             SubSpace("sql/order/X/d4", sw, ("X",), spaces.SQL_ORDER, 4),
             SubSpace("sql/order/Y/d3", sw, ("Y", "Xunb"), spaces.SQL_ORDER, 3),
+            SubSpace("sql/mini/X/d6", sw, ("X", "Y"), spaces.SQL_MINI, 6),
             SubSpace("sql/order-small/X/d5", sw, ("X",), spaces.SQL_ORDER_SMALL, 5),
         ]
 
